@@ -871,6 +871,17 @@ class SymCtx:
             self.solver.add(*extra)
         r = self.solver.check()
         m = self.solver.model() if r == z3.sat else None
+        if r == z3.unknown and not getattr(self, "_in_retry", False):
+            # an incremental-mode timeout (typically under machine load): one retry in a fresh
+            # solver over the same assertions with a longer budget, before calling it unknown
+            self.n_retries = getattr(self, "n_retries", 0) + 1
+            s2 = z3.Solver()
+            s2.set("timeout", min(4 * self.query_timeout_ms, 240000))
+            s2.add(self.solver.assertions())
+            r2 = s2.check()
+            if r2 != z3.unknown:
+                r = r2
+                m = s2.model() if r2 == z3.sat else None
         if extra:
             self.solver.pop()
         self.n_queries += 1
@@ -1327,6 +1338,7 @@ class SymCtx:
         except (_Unobservable, OverflowError, ValueError):
             return None
         self.solver.set("timeout", 1500)
+        self._in_retry = True  # quick probes: unknown just means "try another value"
         try:
             def pinned(vs):
                 return self._check(*extra, *[x.t == realval(v) for x, v in zip(reals, vs)])
@@ -1359,6 +1371,7 @@ class SymCtx:
         except (_Unobservable, OverflowError, ValueError):
             return None
         finally:
+            self._in_retry = False
             self.solver.set("timeout", self.query_timeout_ms)
 
     def model_inputs(self, model, repair=False):
